@@ -372,24 +372,33 @@ META["C05"] = {
 
 META["C06"] = {
     "level": "other",
-    "level_text": "Comprehension lowering is under contract and discharged for all inputs: "
+    "level_text": "Both lowerings are under contract and discharged for all inputs. Comprehensions: "
     "resolve_generator (two nested loop invariants over the reversed generator list: result == "
     "sel_chain(body, reversed(generators)), i.e. X.Where(x: p)….Select(x: Y.Select(y: body)) for any "
     "number of generators and if-clauses, ValueError iff a target is not a plain name or a generator "
     "is async), visit_ListComp / visit_GeneratorExp and resolve_syntatic_sugar against the visitor "
-    "spec lower_sugar at every depth, including grammar well-formedness of the lowered expression "
-    "(list lemmas by structural induction). That the lowered chain MEANS the comprehension is "
-    "checked bounded: ~140 comprehension / generator lambdas evaluated with the reference semantics "
-    "against CPython evaluating the comprehension itself. Data-class / named-tuple constructor "
-    "lowering (convert_call_to_dict: Python reflection, in-place argument list) is bounded only: 5 "
-    "class models x every call shape against inspect.Signature.bind.",
-    "level_note": "Proved: the structural lowering of comprehensions. Bounded: its semantic reading "
-    "and the whole dataclass path. Assumed in the proof: visit_Call returns a well-formed "
-    "expression (uninterpreted in the spec).",
-    "technique": "sidecar contracts on resolve_generator / visit_ListComp / visit_GeneratorExp / resolve_syntatic_sugar (loop invariants, visitor induction, list lemmas) discharged with z3; semantic reading and dataclass lowering by bounded contract check against CPython and inspect.Signature.bind",
+    "spec lower_sugar at every depth. Record constructors: convert_call_to_dict returns exactly "
+    "Dict(field names bound: the leading ones by position, then in declaration order those a keyword "
+    "names; the values given for them) and raises ValueError iff there are more arguments than "
+    "fields, a keyword names no field, or a field is bound both by position and by keyword (loop "
+    "invariants, a dictionary comprehension run as a loop over a dictionary term, 25 list lemmas); "
+    "visit_Call routes data classes (inspect.signature) and named tuples (_fields) to it and equals "
+    "the spec's Call case. Grammar well-formedness of every lowered expression is proved, so the "
+    "visitor's induction hypothesis is assumed only for generic_visit. That the lowered chain "
+    "MEANS the comprehension is checked bounded: ~140 comprehension / generator lambdas evaluated "
+    "with the reference semantics against CPython evaluating the comprehension itself; the record "
+    "spec is cross-checked natively against inspect.Signature.bind on 5 class models x every call "
+    "shape and on same-named classes.",
+    "level_note": "Proved: the structural lowering of comprehensions and of record constructors. "
+    "Bounded: the semantic reading of the comprehension chain; that Python's own binding agrees with "
+    "the record spec. Library models (trusted): inspect.signature(cls).parameters lists the fields in "
+    "declaration order with string names; `_fields` is a tuple of strings; dataclasses.is_dataclass "
+    "is a predicate. Keyword-only fields and defaults of omitted fields are not part of the spec "
+    "(the library deliberately tolerates partial argument lists: known finding of C01).",
+    "technique": "sidecar contracts on resolve_generator / visit_ListComp / visit_GeneratorExp / visit_Call / convert_call_to_dict / resolve_syntatic_sugar (loop invariants, visitor induction, list lemmas) discharged with z3; semantic reading by bounded contract check against CPython, record binding cross-checked against inspect.Signature.bind",
     "p_keys": True,
-    "explanation": "comprehension lowering proved structurally; semantics and dataclass path bounded",
-    "assumptions": ["visit_Call (dataclass lowering) is uninterpreted in the visitor spec and assumed to return a well-formed expression",
+    "explanation": "comprehension and record-constructor lowering proved structurally; semantic reading bounded",
+    "assumptions": ["inspect.signature / _fields / is_dataclass library models",
                     "comprehension / class-model corpus of the bounded part as stated"],
 }
 
